@@ -17,6 +17,7 @@ Definition ipA : ip := 3232235525.   (* 192.168.0.5 *)
 Definition ipBC : ip := 3232235535.  (* 192.168.0.15: broadcast of the /28 *)
 Definition us : option ip := Some 3232235529.
 
+Definition w12_unknown : list op := [ORequest 0 (dmsg0 c3 0 (Some ipA) us)].
 Definition w12_prl : list op := [ODiscover 0 (mkMsg c1 1 0 None None None false 0 [3; 1; 6])].
 
 Ltac last_step c w :=
@@ -46,3 +47,10 @@ Lemma live_example :
       (trace wcfg (init wcfg) (with_ch0 wlive))
   = [(ROffer, 3232235522); (RAck, 3232235522); (RNak, 0); (ROffer, 3232235532); (RAck, 3232235532); (RAck, 3232235522)].
 Proof. vm_compute. reflexivity. Qed.
+
+(* a REQUEST that cannot be honoured (unknown client, our server id) is answered with NAK *)
+Lemma nak_example :
+  let t := hd (mkT (init wcfg) ch0 (OTick 0) None (init wcfg)) (trace wcfg (init wcfg) (with_ch0 w12_unknown)) in
+  cannot_honour wcfg (t_pre t) (dmsg0 c3 0 (Some ipA) us) = true /\
+  option_map r_type (t_reply t) = Some RNak.
+Proof. vm_compute. split; reflexivity. Qed.
